@@ -134,21 +134,27 @@ func constSetOf(v ssa.Value) ([]int64, bool) {
 	if n, ok := constInt(v); ok {
 		return []int64{n}, true
 	}
-	ld, ok := v.(*ssa.UnOp)
-	if !ok || ld.Op != token.MUL {
-		return nil, false
-	}
-	ia, ok := ld.X.(*ssa.IndexAddr)
-	if !ok {
-		return nil, false
-	}
 	// the indexed array: a local composite literal (possibly copied once)
 	var lit *ssa.Alloc
-	switch x := ia.X.(type) {
-	case *ssa.Alloc:
-		lit = x
-	case *ssa.Slice:
-		lit, _ = x.X.(*ssa.Alloc)
+	switch e := v.(type) {
+	case *ssa.Index: // value array indexed by the range variable: (*lit)[i]
+		if u, ok := e.X.(*ssa.UnOp); ok && u.Op == token.MUL {
+			lit, _ = u.X.(*ssa.Alloc)
+		}
+	case *ssa.UnOp:
+		if e.Op != token.MUL {
+			return nil, false
+		}
+		ia, ok := e.X.(*ssa.IndexAddr)
+		if !ok {
+			return nil, false
+		}
+		switch x := ia.X.(type) {
+		case *ssa.Alloc:
+			lit = x
+		case *ssa.Slice:
+			lit, _ = x.X.(*ssa.Alloc)
+		}
 	}
 	if lit == nil {
 		return nil, false
